@@ -8,7 +8,9 @@
 
 namespace libphysica
 {
-extern std::vector<double> FactorialList;
+// the memo table of Factorial is an internal (non-header) global of the library: observed when the build exports it, otherwise the
+// histories run in fresh processes and only the values are judged
+extern std::vector<double> FactorialList __attribute__((weak));
 }
 using namespace vf;
 using namespace libphysica;
@@ -52,19 +54,64 @@ static void replay(const std::string& vec, const std::string& tr)
 		if(c["k"] == "fact")
 			fact[c["n"].get<int>()] = big(c["v"]);
 	// ---- factorial: ascending and descending complete passes, each from a fresh table
+	const bool memo_visible = (&FactorialList != nullptr);
+	// one history from a fresh table: values, and (when the table is visible) its length before/after each call and whether entries stayed
+	struct HStep
+	{
+		double v, prev;
+		long Lb, La;
+		bool stable;
+	};
+	auto run_history = [&](const std::vector<int>& calls) {
+		std::vector<HStep> out;
+		if(memo_visible)
+		{
+			FactorialList = {1.0};
+			for(int n : calls)
+			{
+				size_t Lb	= FactorialList.size();
+				auto before = FactorialList;
+				intent("Factorial(" + std::to_string(n) + ")");
+				double v	= Factorial((unsigned)n);
+				bool stable = FactorialList.size() >= before.size() && std::equal(before.begin(), before.end(), FactorialList.begin(), [](double a, double b) { return bits(a) == bits(b); });
+				long La		= (long)FactorialList.size();
+				double prev = n == 0 ? 0.0 : Factorial((unsigned)(n - 1));
+				out.push_back({v, prev, (long)Lb, La, stable});
+			}
+			return out;
+		}
+		// the table is private to the library: a fresh process is a fresh table
+		intent("Factorial history in a fresh process");
+		ChildResult r = run_child([&]() {
+			std::string sres;
+			char b[64];
+			for(int n : calls)
+			{
+				double v = Factorial((unsigned)n), prev = n == 0 ? 0.0 : Factorial((unsigned)(n - 1));
+				std::snprintf(b, sizeof b, "%a %a ", v, prev);
+				sres += b;
+			}
+			return sres;
+		}, 60);
+		std::istringstream is(r.result);
+		std::string a, b2;
+		while(is >> a >> b2)
+			out.push_back({std::strtod(a.c_str(), nullptr), std::strtod(b2.c_str(), nullptr), -1, -1, true});
+		return out;
+	};
 	for(int pass = 0; pass < 2; pass++)
 	{
-		FactorialList = {1.0};
-		T.emit({{"e", "Reset"}});
+		std::vector<int> calls;
 		for(int i = 0; i <= 170; i++)
+			calls.push_back(pass == 0 ? i : 170 - i);
+		auto hs = run_history(calls);
+		T.emit({{"e", "Reset"}});
+		for(size_t i = 0; i < calls.size(); i++)
 		{
-			int n			= pass == 0 ? i : 170 - i;
-			size_t Lb		= FactorialList.size();
-			auto before		= FactorialList;
-			intent("Factorial(" + std::to_string(n) + ")");
-			double v = Factorial((unsigned)n);
-			bool stable = FactorialList.size() >= before.size() && std::equal(before.begin(), before.end(), FactorialList.begin(), [](double a, double b) { return bits(a) == bits(b); });
-			T.emit({{"e", "Fact"}, {"n", n}, {"Lb", Lb}, {"La", FactorialList.size()}, {"stable", stable}, {"q", relq(v, fact[n], 16 * EPS)}, {"recq", n == 0 ? 0 : relq(v, (long double)n * (long double)Factorial(n - 1), 2 * EPS)}});
+			int n = calls[i];
+			bool have = i < hs.size();
+			T.emit({{"e", "Fact"}, {"n", n}, {"obs", memo_visible}, {"ret", have}, {"Lb", have ? hs[i].Lb : -1}, {"La", have ? hs[i].La : -1}, {"stable", have ? hs[i].stable : false},
+					{"q", have ? relq(hs[i].v, fact[n], 16 * EPS) : (1 << 30)}, {"recq", (n == 0 || !have) ? 0 : relq(hs[i].v, (long double)n * (long double)hs[i].prev, 2 * EPS)}});
 		}
 	}
 	for(auto& c : cases)
@@ -72,17 +119,17 @@ static void replay(const std::string& vec, const std::string& tr)
 		std::string k = c["k"];
 		if(k == "hist")
 		{
-			FactorialList = {1.0};
-			T.emit({{"e", "Reset"}});
+			std::vector<int> calls;
 			for(size_t i = 0; i < c["calls"].size(); i++)
+				calls.push_back(c["calls"][i].get<int>());
+			auto hs = run_history(calls);
+			T.emit({{"e", "Reset"}});
+			for(size_t i = 0; i < calls.size(); i++)
 			{
-				int n	   = c["calls"][i];
-				size_t Lb  = FactorialList.size();
-				auto before = FactorialList;
-				intent("Factorial(" + std::to_string(n) + ")");
-				double v	= Factorial((unsigned)n);
-				bool stable = FactorialList.size() >= before.size() && std::equal(before.begin(), before.end(), FactorialList.begin(), [](double a, double b) { return bits(a) == bits(b); });
-				T.emit({{"e", "Fact"}, {"n", n}, {"Lb", Lb}, {"La", FactorialList.size()}, {"Lspec", c["L"][i]}, {"stable", stable}, {"q", relq(v, fact[n], 16 * EPS)}, {"recq", 0}});
+				int n = calls[i];
+				bool have = i < hs.size();
+				T.emit({{"e", "Fact"}, {"n", n}, {"obs", memo_visible}, {"ret", have}, {"Lb", have ? hs[i].Lb : -1}, {"La", have ? hs[i].La : -1}, {"Lspec", c["L"][i]}, {"stable", have ? hs[i].stable : false},
+						{"q", have ? relq(hs[i].v, fact[n], 16 * EPS) : (1 << 30)}, {"recq", 0}});
 			}
 		}
 		else if(k == "fact")
